@@ -14,11 +14,10 @@ def configs(tier):
     ]
     if tier == 'quick': return q
     return q + [
-        ('6 ops over new/add/opt/rm', dict(length=6, ops=('new', 'add', 'opt', 'rm'))),
+        ('5 ops over new/add/opt/rm', dict(length=5, ops=('new', 'add', 'opt', 'rm'))),
         ('3 ops over all 11 operation kinds', dict(length=3)),
-        ('7 ops over new/add/rm/readd/opt', dict(length=7, ops=('new', 'add', 'rm', 'readd', 'opt'), render=False)),
-        ('7 ops over new/add/opt', dict(length=7, ops=('new', 'add', 'opt'), render=False)),
-        ('6 ops over new/nest/add/opt/rm/get', dict(length=6, ops=('new', 'nest', 'add', 'opt', 'rm', 'get'), render=False)),
+        ('6 ops over new/add/rm/readd/opt', dict(length=6, ops=('new', 'add', 'rm', 'readd', 'opt'), render=False)),
+        ('6 ops over new/add/opt', dict(length=6, ops=('new', 'add', 'opt'), render=False)),
     ]
 
 def main():
@@ -31,7 +30,7 @@ def main():
     ]
     if c.setup():
         for label, kw in configs(c.tier):
-            c.run(label, 'rsym.hc', 'OpSequence', kw, required_witnesses=tuple('op:' + o for o in kw.get('ops', ('add', 'opt'))[:2]), time_cap=200 if c.tier == 'quick' else 3000)
+            c.run(label, 'rsym.hc', 'OpSequence', kw, required_witnesses=tuple('op:' + o for o in kw.get('ops', ('add', 'opt'))[:2]), time_cap=200 if c.tier == 'quick' else 900)
     c.finish(bounds={'sequences': [l for l, _ in configs(c.tier)]}, outside=['longer sequences', 'names outside {a,b,c}', 'trees deeper than parent/child/grandchild'],
              trusted=['rsym + models', 'z3', 'ordered-map model (rsym/hc.py)', 'tools/replay op=ops'],
              technique='symbolic execution of operation sequences (operation kind, names, flags symbolic); stepwise comparison with an ordered-map model decided by z3')
